@@ -1,1 +1,2 @@
+pub mod refbin;
 pub mod reflz;
